@@ -417,6 +417,14 @@ def cases_c04(types, rng, tier):
                     c.add(t["tid"], f"trav C[{a}][{b}] -", f"notFound {k + 1} cb={cbk}",
                           f"Chain whose first part fails ({what}) at level {k + 1} for node {p} of {t['label']}: "
                           f"the second part must not be consulted", "chain:bad-first")
+            # a key source ends at the first `None` of the iterator it was made from, even if that iterator is not fused and
+            # would yield more afterwards (Chain polls its first part again for every later key)
+            for k in range(len(p) + 1):
+                a = "N:" + ",".join([f"i{i}" for i in p[:k]] + ["-", "i0", "i1"])
+                b = T.render(S.at(s, p[:k]), p[k:], "indices")
+                c.add(t["tid"], f"trav C[{a}][{b}] -", f"{res} cb={cb}",
+                      f"Chain(non-fused iterator yielding {list(p[:k])} then None then more, indices of the rest) for node {p} of "
+                      f"{t['label']}", "chain:holey")
             # ... and a chain is exhausted only when both parts are: surplus keys in the second part are TooLong
             if typ == "leaf":
                 a = T.render(s, p, "names")
